@@ -472,8 +472,9 @@ class ContractRun:
     """A task: `body(c)` plus the static description needed for native replay."""
 
     def __init__(self, body, clauses=(), raises=None, frame=(), fresh=False, names=None, unchanged_on_raise=True,
-                 replayable=True, use=(), pool=None, cuts=None, nosumm=()):
+                 replayable=True, use=(), pool=None, cuts=None, nosumm=(), max_steps=None):
         self.body = body
+        self.max_steps = max_steps  # per-path step budget (None: the configured default)
         self.clauses = list(clauses)
         self.raises = raises
         self.frame = tuple(frame)
@@ -522,8 +523,17 @@ def run_item(gid, item, cfg):
         nrep = [0]
         searched = {}
 
+        nrepro = [0]
+
         def on_path(r):
-            pass
+            # once several violations of this item have been reproduced on the real code the verdict cannot change:
+            # stop exploring the item (keeps a broken tree from costing hours)
+            if r.extra:
+                nrepro[0] += sum(1 for e_ in r.extra['replays'] if (e_.get('replay') or {}).get('status') == 'REPRODUCED')
+            if nrepro[0] >= cfg.get('stop_after', 12):
+                out['stopped_early'] = True
+                return True
+            return False
 
         def task(c):
             c.callspec = None
@@ -531,6 +541,13 @@ def run_item(gid, item, cfg):
                 run.body(c)
             except PathEnd:
                 pass  # the path ended inside a loop cut: its obligations are collected below
+            except explore.StepBudget:
+                # the real function did not finish on this path within the step budget: candidate non-termination.  It
+                # becomes a violation only if the native call on the path's model does not return either (replay below).
+                if c.callspec is None or c.callspec.done or not run.replayable:
+                    raise
+                c.steps = 0
+                c.fail('terminates', 'symbolic execution of the call did not finish within %d steps on this path' % c.max_steps)
             spec = c.callspec
             refuted = [o for o in c.obligations if o.status == 'refuted']
             names = run.names
@@ -584,7 +601,7 @@ def run_item(gid, item, cfg):
         envr.interp.loop_cuts = run.cuts or {}
         try:
                 results = explore.explore(task, max_paths=cfg.get('max_paths', 200000), timeout_ms=cfg.get('solver_ms', 10000),
-                                      max_steps=cfg.get('max_steps', 400000), deadline=deadline)
+                                      max_steps=run.max_steps or cfg.get('max_steps', 400000), deadline=deadline, on_path=on_path)
         finally:
             envr.interp.loop_cuts = {}
             envr.program.summaries.clear()
